@@ -310,10 +310,18 @@ class Analysis:
             top = encl
             while top in self.branches:
                 top = self.branches[top][2]
-            if top in self.mdefs:
+            # conditionally called: some call on a path from a transaction down to the method is guarded
+            frontier, seen = [top], set()
+            while frontier:
+                mth = frontier.pop()
+                if mth in seen or mth not in self.mdefs:
+                    continue
+                seen.add(mth)
                 for s in self.sites.values():
-                    if s.target == top and (s.node.get("en") or len(s.pos) > len(self.bodies[s.body].pos) + 1):
-                        f["cond_in_conditionally_called_method"] = True
+                    if s.target == mth:
+                        if s.node.get("en") or len(s.pos) > len(self.bodies[s.body].pos) + 1:
+                            f["cond_in_conditionally_called_method"] = True
+                        frontier.append(s.body)
             for br in n["branches"]:
                 for ch in self.chains[br["bid"]]:
                     if self.mdefs[ch[-1].target].get("val"):
@@ -332,12 +340,14 @@ class Analysis:
             node = self.bodies[bid].node if self.bodies[bid].kind == "T" else self.mdefs.get(bid, {})
             if node.get("rdy_run"):
                 deps.append((self.resolve(node["rdy_run"]), bid))
+        # the grant of a component depends combinationally on every request of the component, a request on
+        # the run of what it is ready-dependent on: the dependencies must not close a cycle over components
+        edges = set()
         for d, b in deps:
             for x in self.trans_for.get(d, []):
                 for y in self.trans_for.get(b, []):
-                    if comp_of[x] == comp_of[y]:
-                        return False
-        return True
+                    edges.add((comp_of[x], comp_of[y]))
+        return not _cyclic(range(len(comps)), edges)
 
     # ---- well-formedness by the documented rules (used by the generator; rejection sampling) ----
     def defects(self):
